@@ -61,6 +61,8 @@ import (
 	"github.com/cedar-policy/cedar-go/types"
 	xast "github.com/cedar-policy/cedar-go/x/exp/ast"
 	"github.com/cedar-policy/cedar-go/x/exp/schema"
+	"github.com/cedar-policy/cedar-go/x/exp/schema/resolved"
+	xtypes "github.com/cedar-policy/cedar-go/x/exp/types"
 	"pgregory.net/rapid"
 
 	"verif/conv"
@@ -695,6 +697,26 @@ var entries = []entryDef{
 		r.accepted = true
 		r.postEntities(em)
 	}},
+	// the schema-guided entity decoders (implicit forms are coerced by the declared attribute / tag types; entities of
+	// undeclared types, with undeclared attributes, or with tags where none are declared must be handled or rejected)
+	{name: "xtypes.Entity.UnmarshalJSONWithSchema", format: fEntityJSON, run: func(in []byte, r *runner) {
+		var e xtypes.Entity
+		r.at("xtypes.Entity.UnmarshalJSONWithSchema")
+		if e.UnmarshalJSONWithSchema(in, coercionSchema()) != nil {
+			return
+		}
+		r.accepted = true
+		r.postEntities(types.EntityMap{e.UID: types.Entity(e)})
+	}},
+	{name: "xtypes.EntityMap.UnmarshalJSONWithSchema", format: fEntityMapJSON, run: func(in []byte, r *runner) {
+		var em xtypes.EntityMap
+		r.at("xtypes.EntityMap.UnmarshalJSONWithSchema")
+		if em.UnmarshalJSONWithSchema(in, coercionSchema()) != nil {
+			return
+		}
+		r.accepted = true
+		r.postEntities(types.EntityMap(em))
+	}},
 	{name: "types.UnmarshalJSON", format: fValueJSON, deep: true, run: func(in []byte, r *runner) {
 		var v types.Value
 		r.at("types.UnmarshalJSON")
@@ -863,6 +885,32 @@ var entries = []entryDef{
 		r.accepted = true
 		r.postSchema(&s)
 	}},
+}
+
+var (
+	coercionOnce sync.Once
+	coercionRS   *resolved.Schema
+)
+
+// coercionSchema declares the entity types of the generated worlds: T0 with tags, T1 without, NS::T2 with record-typed tags.
+func coercionSchema() *resolved.Schema {
+	coercionOnce.Do(func() {
+		var s schema.Schema
+		if err := s.UnmarshalCedar([]byte(`
+entity T0 in [T1] { a?: Long, b?: String, k?: Bool, x?: T1, e?: T0, ip?: ipaddr, d?: decimal, s?: Set<T1>, r?: { e?: T0, d?: decimal } } tags Long;
+entity T1 in [NS::T2] { a?: ipaddr, x?: Set<decimal> };
+namespace NS { entity T2 { a?: Set<datetime> } tags { e: T0, n?: ipaddr }; }
+action view appliesTo { principal: [T0], resource: [T1] };
+`)); err != nil {
+			panic("C10 harness: coercion schema does not parse: " + err.Error())
+		}
+		rs, err := s.Resolve()
+		if err != nil {
+			panic("C10 harness: coercion schema does not resolve: " + err.Error())
+		}
+		coercionRS = rs
+	})
+	return coercionRS
 }
 
 func entryByName(name string) *entryDef {
